@@ -64,6 +64,9 @@ pub struct SimFs {
     /// Files that exist but cannot be read (by path).
     pub unreadable: RefCell<BTreeMap<PathBuf, IoFault>>,
     pub reads: Cell<u64>,
+    /// Reads since the current line started (step budget: a loop of `\input`s that no nesting limit
+    /// stops would otherwise run - and allocate - for ever).
+    pub line_reads: Cell<u64>,
     pub writes: Cell<u64>,
     pub faults_fired: RefCell<BTreeMap<&'static str, u64>>,
     /// Log of (path, ok) for every read, for the event log.
@@ -82,6 +85,13 @@ impl SimFs {
     fn read(&self, path: &Path) -> std::io::Result<Vec<u8>> {
         let n = self.reads.get();
         self.reads.set(n + 1);
+        self.line_reads.set(self.line_reads.get() + 1);
+        if self.line_reads.get() > 2000 {
+            std::panic::resume_unwind(Box::new(BudgetExceeded));
+        }
+        if n % 64 == 0 {
+            crate::process::check_memory_budget();
+        }
         if let Some(f) = self.read_faults.borrow().get(&n) {
             self.bump(match f {
                 IoFault::NotFound => "fs_read_notfound",
